@@ -1,8 +1,18 @@
 """Registry entry, manifest texts for C02."""
 
 ENTRY = {'parts': [{'scenario': 'scenarios.s_pool', 'chunk': 6}],
-         'quick': {'runs': 2500, 'budget': 50}, 'thorough': {'runs': 150000, 'budget': 1200}}
+         'quick': {'runs': 2500, 'budget': 55}, 'thorough': {'runs': 150000, 'budget': 1200}}
 
-TEXT = {'level': 'TODO', 'ref': 'DESIGN.md 5 (C02), 4 (S-POOL)', 'note': 'TODO'}
-
-ENABLED = False
+TEXT = {'level': 'Seeded search over inputs x chunkings x completion orders: map/starmap/imap/imap_unordered/apply '
+          'on pools of 1-4 real workers whose chunk completion order is chosen by the scheduler; lengths '
+          '0-24 incl. non-multiples of the chunk size, explicit and defaulted chunk sizes, raising items at '
+          'generated positions. Oracle: sequential reference computed from the task programs; map equality, '
+          'imap order, imap_unordered multiset, exception type/args/__cause__ RemoteTraceback naming the '
+          'raising frame, failed-map error belongs to one of its own inputs, imap raises at the failing '
+          'position and goes on (also chunked), empty input touches no worker.',
+ 'note': 'Trusted: the simulated kernel (simos) models Linux semaphores, pipes, poll, process table, signals '
+         'and wait statuses faithfully (stub conformance: selftest/conformance.py); BaseProcess._bootstrap '
+         'is replaced by a replica of its exit-code mapping (checked by C19); start method is spawn-like '
+         '(pickled copy). Workers die uncatchably only inside task code or between jobs; pipes do not lose '
+         'bytes. Sampling, not proof.',
+ 'ref': 'DESIGN.md 5 (C02), 3, 4 (S-POOL)'}
